@@ -454,6 +454,42 @@ fn run(ctx: &mut Ctx) {
             }
         }
     }
+    // classification depends on the type word alone: the other fields of the header (flags, address, size, alignment)
+    // over values that are "inconsistent" with one another
+    ctx.bound("elf_other_fields", "one-header tables, both layouts, raw type over the 24-value dictionary x flags {0, 2, 7} x address {0, 0x1008, 0x100004, 0x1FF0, all-ones} x size {0, 0x10} x alignment {0, 1, 8, 16, 0x1000, 3}: class and raw type as documented for the type word");
+    for entsize in [64usize, 40] {
+        for &x in ELF_DICT.iter() {
+            for flags in [0u64, 2, 7] {
+                for addr in [0u64, 0x1008, 0x10_0004, 0x1FF0, u64::MAX] {
+                    for size in [0u64, 0x10] {
+                        for align in [0u64, 1, 8, 16, 0x1000, 3] {
+                            ctx.leaf(
+                                || J::obj().set("elf_other_fields", entsize).set("type", x).set("flags", flags).set("addr", format!("{:#x}", addr)).set("size", size).set("addralign", align),
+                                |ctx| {
+                                    ctx.state_direct();
+                                    ctx.nontrivial();
+                                    let e = if entsize == 40 { bi::enc_shdr32(0, x, flags as u32, addr as u32, 0, size as u32, 0, 0, align as u32, 0) } else { bi::enc_shdr64(0, x, flags, addr, 0, size, 0, 0, align, 0) };
+                                    let img = bi::enc_elf(1, entsize as u32, 0, &e);
+                                    let mut buf = Aligned::<88>([0u8; 88]);
+                                    buf.0[..img.len()].copy_from_slice(&img);
+                                    let r = ctx.call("sections", || {
+                                        let tag = DynSizedStructure::<TagHeader>::ref_from_slice(&buf.0[..round8(img.len())]).unwrap().cast::<ElfSectionsTag>();
+                                        tag.sections().map(|s| (s.section_type(), s.section_type_raw())).collect::<Vec<_>>()
+                                    });
+                                    let want: Vec<(ElfSectionType, u32)> = expected_elf(x).map(|e| (e, x)).into_iter().collect();
+                                    match r {
+                                        Out::Val(got) if got == want => ctx.class("elf-table:classified"),
+                                        Out::Val(got) => ctx.violation("c20/elf-tables/other-fields", || format!("raw type {:#x} with flags {:#x} address {:#x} size {:#x} alignment {:#x} (entry size {}): iterator gives {:x?}, documented {:x?}", x, flags, addr, size, align, entsize, got, want)),
+                                        Out::Panic => ctx.violation("c20/elf-tables/panic", || format!("sections() panicked for raw type {:#x}", x)),
+                                    }
+                                },
+                            );
+                        }
+                    }
+                }
+            }
+        }
+    }
     // MAGIC constants
     ctx.leaf(
         || J::obj().set("constants", "MAGIC"),
